@@ -9,8 +9,6 @@ CONSTANTS
   LVals <- LV
   LossLo = 1
   LossHi = 5
-  FinalClamp = TRUE
+  FinalClamp = FALSE
   CloseWaits = TRUE
-INVARIANTS InBounds AbsOK Consistent Sub GetterOK ClosedErr NoPanic
-PROPERTIES NoPublishAfterClose WriteReturns CloseReturns AllDelivered
-
+INVARIANTS InBounds
